@@ -114,13 +114,19 @@ fn run_worker_process(cases: &[Case], noisy: bool) -> Result<Vec<Res>, String> {
         cmd.current_dir("/");
     }
     let mut child = cmd.spawn().map_err(|e| e.to_string())?;
-    {
-        let mut si = child.stdin.take().unwrap();
-        for c in cases {
-            writeln!(si, "{}", case_line(c)).map_err(|e| e.to_string())?;
+    // the cases are fed from a second thread: the worker answers while it is still being fed, and
+    // with both pipes full a single-threaded writer-then-reader would block for ever
+    let lines: Vec<String> = cases.iter().map(case_line).collect();
+    let mut si = child.stdin.take().unwrap();
+    let feeder = std::thread::spawn(move || {
+        for l in lines {
+            if writeln!(si, "{}", l).is_err() {
+                break;
+            }
         }
-    }
+    });
     let out = child.wait_with_output().map_err(|e| e.to_string())?;
+    let _ = feeder.join();
     if !out.status.success() {
         return Err(format!("worker process exited with {:?}", out.status));
     }
@@ -177,12 +183,15 @@ fn memcheck(ctx: &Ctx, rep: &mut Report, cases: &[Case], base: &[Res]) {
             return;
         }
     };
-    {
-        let mut si = child.stdin.take().unwrap();
-        for i in &picked {
-            let _ = writeln!(si, "{}", case_line(&cases[*i]));
+    let lines: Vec<String> = picked.iter().map(|i| case_line(&cases[*i])).collect();
+    let mut si = child.stdin.take().unwrap();
+    let feeder = std::thread::spawn(move || {
+        for l in lines {
+            if writeln!(si, "{}", l).is_err() {
+                break;
+            }
         }
-    }
+    });
     let out = match child.wait_with_output() {
         Ok(o) => o,
         Err(e) => {
@@ -190,6 +199,7 @@ fn memcheck(ctx: &Ctx, rep: &mut Report, cases: &[Case], base: &[Res]) {
             return;
         }
     };
+    let _ = feeder.join();
     let text = String::from_utf8_lossy(&out.stdout);
     let lines: Vec<&str> = text.lines().collect();
     if !out.status.success() || lines.len() != picked.len() {
